@@ -273,6 +273,17 @@ where
         )
     );
 
+    #[cfg(feature = "verif_hooks")]
+    let quotient_polys = {
+        let mut quotient_polys = quotient_polys;
+        if let Some((j, k, delta)) = crate::util::verif_hooks::get().quotient_delta {
+            let j = j % quotient_polys.len();
+            let k = k % quotient_polys[j].coeffs.len();
+            quotient_polys[j].coeffs[k] += F::from_canonical_u64(delta);
+        }
+        quotient_polys
+    };
+
     let all_quotient_poly_chunks: Vec<PolynomialCoeffs<F>> = timed!(
         timing,
         "split up quotient polys",
@@ -433,6 +444,10 @@ fn wires_permutation_partial_products_and_zs<
         .collect::<Vec<_>>();
 
     let mut z_x = F::ONE;
+    #[cfg(feature = "verif_hooks")]
+    if let Some(z) = crate::util::verif_hooks::get().z_init {
+        z_x = F::from_canonical_u64(z);
+    }
     let mut all_partial_products_and_zs = Vec::with_capacity(all_quotient_chunk_products.len());
     for quotient_chunk_products in all_quotient_chunk_products {
         let mut partial_products_and_z_gx =
